@@ -203,7 +203,16 @@ def modelAnswer (st : St) (l : Line) : Option (List Val) × Option (Model.Heap.H
         | .hang => (some [.atom "hang"], none)
     | _, _ => (none, none)
 
-def step (st : St) (l : Line) : Step St :=
+/-- `sortspare` / `fromslicespare`: the same calls on an argument that sits in a larger backing array
+(spare capacity behind its length); the contract, the model and the monitor are those of `sort` /
+`fromslice` — capacity is not part of a slice's value. -/
+def normOp (l : Line) : Line :=
+  if l.op == "sortspare" then { l with op := "sort" }
+  else if l.op == "fromslicespare" then { l with op := "fromslice" }
+  else l
+
+def step (st : St) (l0 : Line) : Step St :=
+  let l := normOp l0
   let r := monStep st l
   let (ans, m') := modelAnswer st l
   { r with st := { r.st with model := m' }, model := ans }
